@@ -245,3 +245,10 @@ def run(ck):
                 r["key"] = r["key"].replace("C15.1/", "C15.7/", 1)
                 r["clause"] = "7"
                 ck.results.append(r)
+    # ---- shared clauses demonstrated by seeding round 7 (the property broken from a distant module) --------------
+    from props import common as _c7
+    import importlib as _il
+    _m = lambda n: _il.import_module('props.' + n)
+    _c7.ping_infra(ck, "5")  # the events of the other sources survive a failing batch only because they are level-triggered
+    _c7.import_results(ck, _m("C16"), "3", "Poll::", "3")  # no bookkeeping of the poller wrapper runs ahead of the fallible call
+
